@@ -239,7 +239,10 @@ def battery_cases():
              "match {} {{ 1..=2 => 2, _ => 3 }}", "match {} {{ 1..2 => 2, _ => 3 }}", "loop {{ break {}; }}", "'a: loop {{ break 'a {}; }}", "'b: loop {{ break 'b {}; }}",
              "loop {{ if {} {{ continue; }} }}", "'a: loop {{ if {} {{ continue 'a; }} }}", "while {} {{ }}", "'a: while {} {{ }}", "for x in {} {{ }}", "for y in {} {{ }}",
              "return {}", "S {{ a: {} }}", "S {{ a: {}, ..d }}", "S {{ b: {} }}", "m::S {{ a: {} }}", "S {{ a: {}, b: 1 }}", "<T as Tr>::f({})", "T::f({})", "T::g({})",
-             "{} = 1", "{} += 1", "{} -= 1", "{} == 1", "{} < 1", "{} && true", "{} || true", "{} << 1", "m!({})", "{} as fn(u8) -> u8", "{}::<u8>()", "{}::<u16>()"]
+             "{} = 1", "{} += 1", "{} -= 1", "{} == 1", "{} < 1", "{} && true", "{} || true", "{} << 1", "m!({})", "{} as fn(u8) -> u8", "{}::<u8>()", "{}::<u16>()",
+             # literals that differ in spelling, radix or suffix only (a suffix decides the VALUE of `0u8.count_zeros()`; seeded change C09i compared digits)
+             "{} + 16", "{} + 0x10", "{} + 1_6", "{} + 16usize", "{} + 16u8", "f({}, 0u8.count_zeros())", "f({}, 0u64.count_zeros())", "{} + 1.0", "{} + 1.0f32",
+             "f({}, 'a')", "f({}, b'a')", "f({}, \"s\")", "f({}, b\"s\")", "f({}, true)", "f({}, false)"]
     for a in exprs:
         for b in exprs:
             out.append(("expr", a.format(*([P] * a.count("{}"))), b.format(*(["7"] * b.count("{}"))), "battery:expr-form"))
